@@ -123,6 +123,10 @@ def examine(ctx, recipe, items) -> None:
                 if nm not in res:
                     continue
                 da = ds[nm]
+                # bit-for-bit: the selected values are the stored ones, in their stored type
+                if res[nm].dtype != da.dtype:
+                    ctx.oracle_fail('select-storage-type-changed', {'recipe': recipe, 'kind': kind, 'indexes': comps, 'var': nm},
+                                    f'{nm} is stored as {da.dtype}, the selection holds {res[nm].dtype}')
                 for k, cc in enumerate(comps):
                     want = np.asarray(da.isel(dict(zip(gdims, cc))).values, dtype='f8')
                     got = np.asarray(res[nm].isel({idim: k}).transpose(*[d for d in da.dims if d not in gdims]).values, dtype='f8')
@@ -149,6 +153,9 @@ def examine(ctx, recipe, items) -> None:
             items.append((line, out, {'recipe': recipe, 'op': line, 'var': nm}))
             if one is not None and nm in one:
                 want = ds[nm].isel(dict(zip(gdims, cc)))
+                if one[nm].dtype != want.dtype:
+                    ctx.oracle_fail('select-storage-type-changed', {'recipe': recipe, 'kind': kind, 'index': cc, 'var': nm},
+                                    f'{nm} is stored as {want.dtype}, select_index gives {one[nm].dtype}')
                 if tuple(one[nm].dims) != tuple(want.dims) or not np.array_equal(
                         np.asarray(one[nm].values, dtype='f8'), np.asarray(want.values, dtype='f8'), equal_nan=True):
                     ctx.oracle_fail('select-index-other-dimensions-changed', {'recipe': recipe, 'kind': kind, 'index': cc, 'var': nm},
@@ -312,7 +319,7 @@ def make_recipe(ctx, k):
     kw = {'max_w': 2, 'max_h': 2, 'coords_as': 'vars'} if conv == 'ugrid' else {'max_n': 4}
     recipe = G.random_recipe(rng, conv, ctx.tier, **kw)
     return G.attach_vars(rng, recipe, n_vars=3, max_extra=2, with_nan=True,
-                         dtypes=('f8', 'f8', 'i4', 'i4fill', 'i4missing'))
+                         dtypes=('f8', 'f8', 'f4', 'i4', 'i8', 'u4', 'i4fill', 'i4missing'))
 
 
 def run(ctx) -> None:
